@@ -74,6 +74,8 @@ def head_mutations(rng):
                 (f"err-{st[:3].decode()}-cl-spaces", base.replace(b"\r\n\r\n", b"\r\nContent-Length: 1 2\r\n\r\nab"))]
     for st in (b"301", b"302", b"303", b"307", b"308"):
         base = b"HTTP/1.1 " + st + b" Moved\r\n"
+        for hostform in (b"127.1", b"127.0.1", b"0x7f.0.0.1", b"127.0.0.01", b"2130706433", b"127.0.0.1.", b"[::ffff:127.0.0.1]", b"1.2.3.4", b"999.1.1.1", b"1.2.3"):
+            out.append((f"redirect-{st.decode()}-odd-ip-{hostform.decode()}", base + b"Location: ws://" + hostform + b":8080/r\r\n\r\n"))
         out += [(f"redirect-{st.decode()}-no-location", base + b"\r\n"),
                 (f"redirect-{st.decode()}-foreign-scheme", base + b"Location: http://other.test/\r\n\r\n"),
                 (f"redirect-{st.decode()}-relative", base + b"Location: /relative\r\n\r\n"),
@@ -217,8 +219,13 @@ def handshake_case(res, W, rng, job, ji):
     res.count("handshake_cases")
     res.case(("H", data, emb, ending), nontrivial=True)
     w = None
+    extra = {}
+    if ji % 3 == 0:
+        # a no_proxy list with CIDR blocks makes the proxy decision inspect every (redirect) host as an address
+        extra = {"http_no_proxy": ["10.0.0.0/8", "127.0.0.0/8", ".internal.test"], "http_proxy_host": "proxy.test", "http_proxy_port": 3128}
+        res.count("handshake_cases_with_proxy_config")
     try:
-        w = W.create_connection("ws://sim.test/", timeout=2, redirect_limit=2)
+        w = W.create_connection("ws://127.0.0.1/" if extra else "ws://sim.test/", timeout=2, redirect_limit=2, **extra)
         res.count("handshake_connected")
     except BaseException as e:  # noqa
         if isinstance(e, (KeyboardInterrupt, sched.SimAbort)):
@@ -302,8 +309,20 @@ def frame_case(res, W, rng, job, ji, tier):
             close_case(res, W, stream, ending, case, label)
             continue
         script = [(name, True)] * 8
+        segs = None
+        terr = None
+        if ji % 6 == 1 and len(stream) > 1:
+            # the transport itself fails in the middle of the stream with one of its own errors
+            import ssl as _ssl
+            terr = [_ssl.SSLError(1, "[SSL: DECRYPTION_FAILED_OR_BAD_RECORD_MAC] decryption failed or bad record mac (_ssl.c:2580)"),
+                    _ssl.SSLError("The read operation timed out"), _ssl.SSLZeroReturnError(6, "TLS/SSL connection has been closed (EOF)"),
+                    OSError(113, "No route to host"), ConnectionAbortedError(103, "Software caused connection abort"), OSError("no errno here"),
+                    _ssl.SSLError(), TimeoutError()][(ji // 6) % 8]
+            cut = rng.randrange(0, len(stream))
+            segs = [stream[:cut], (net.ERROR, terr), stream[cut:]]
+            res.count("transport_errors_injected")
         try:
-            obs = H.run_recv_script(stream, script, ending=ending, ws_kwargs=kw, timeout=2)
+            obs = H.run_recv_script(stream, script, segs=segs, ending=ending, ws_kwargs=kw, timeout=2)
         except BaseException as e:  # noqa
             if isinstance(e, (KeyboardInterrupt, sched.SimAbort)):
                 raise
@@ -320,6 +339,8 @@ def frame_case(res, W, rng, job, ji, tier):
             else:
                 res.count(f"exc:frames:{last[1]}")
         size_monitor(res, obs["conn"], "frames", label, case)
+        if terr is not None:
+            continue  # values after an injected transport error are not compared with the model
         # value consistency with the reference decoder on the consumed prefix
         pred, model = M.predict(stream, script, ending=ending, per_fragment=bool(kw.get("fire_cont_frame")),
                                 validate_utf8=not kw.get("skip_utf8_validation"))
